@@ -8,6 +8,7 @@ package main
 import (
 	"fmt"
 	"os"
+	"strconv"
 	"strings"
 
 	meshconfig "istio.io/api/mesh/v1alpha1"
@@ -21,16 +22,139 @@ import (
 
 func wireCreate(p string) *wire.Out { return wire.Create(p) }
 
-func alpnClass(l []string) int {
-	if len(l) == 0 {
-		return 0
+// alpnCode: one letter per application-protocol list the code uses (exact, ordered comparison); any other
+// list shows as "?" followed by its content, so that a changed list can never hide behind a class.
+func alpnCode(l []string) string {
+	known := map[string]string{
+		"":                                       "0",
+		"istio-http/1.0,istio-http/1.1,istio-h2": "H",
+		"istio,istio-peer-exchange,istio-http/1.0,istio-http/1.1,istio-h2": "A",
+		"istio-peer-exchange,istio":                                        "T",
+		"http/1.1,h2c":                                                     "P",
 	}
-	for _, a := range l {
-		if !strings.HasPrefix(a, "istio") {
-			return 2 // plaintext application protocols
+	k := strings.Join(l, ",")
+	if c, ok := known[k]; ok {
+		return c
+	}
+	return "?" + strings.NewReplacer(",", "+", ".", "_", ":", "_").Replace(k)
+}
+
+var alpnOfCode = map[string][]string{
+	"0": nil,
+	"H": {"istio-http/1.0", "istio-http/1.1", "istio-h2"},
+	"A": {"istio", "istio-peer-exchange", "istio-http/1.0", "istio-http/1.1", "istio-h2"},
+	"T": {"istio-peer-exchange", "istio"},
+	"P": {"http/1.1", "h2c"},
+}
+
+// ---------------------------------------------------------------- Envoy's chain selection, for the oracles
+
+// selChain: what the oracles need to know about a filter chain of one destination port.
+type selChain struct {
+	tls   bool // transport_protocol tls (else raw_buffer)
+	alpn  []string
+	sock  string // 0 none, 1 TLS without client cert, 2 mutual TLS, X/? malformed
+	http  bool
+	label string
+}
+
+type clientKind struct {
+	name  string
+	tls   bool
+	alpns []string
+	mtls  bool // an Istio sidecar originating mutual TLS
+	plain bool
+}
+
+// the clients the property speaks about (ALPNs: util.ALPNInMeshWithMxc, ALPNInMesh, the ALPN override filter
+// of xds/filters, what the HTTP inspector infers for plaintext)
+var clientKinds = []clientKind{
+	{"mtls-tcp", true, []string{"istio-peer-exchange", "istio"}, true, false},
+	{"mtls-tcp-nomx", true, []string{"istio"}, true, false},
+	{"mtls-http10", true, []string{"istio-http/1.0", "istio", "http/1.0"}, true, false},
+	{"mtls-http11", true, []string{"istio-http/1.1", "istio", "http/1.1"}, true, false},
+	{"mtls-h2", true, []string{"istio-h2", "istio", "h2"}, true, false},
+	{"plain-tcp", false, nil, false, true},
+	{"plain-http11", false, []string{"http/1.1"}, false, true},
+	{"plain-h2c", false, []string{"h2c"}, false, true},
+	{"foreign-tls", true, []string{"h2", "http/1.1"}, false, false},
+	{"foreign-tls-noalpn", true, nil, false, false},
+}
+
+func contains(l []string, a string) bool {
+	for _, x := range l {
+		if x == a {
+			return true
 		}
 	}
-	return 1 // only Istio mTLS ALPNs
+	return false
+}
+
+// selectChains: transport-protocol stage, then the application-protocol stage (first offered ALPN that some
+// chain lists; fallback: chains without application protocols).
+func selectChains(cs []selChain, k clientKind) []selChain {
+	var byTP []selChain
+	for _, c := range cs {
+		if c.tls == k.tls {
+			byTP = append(byTP, c)
+		}
+	}
+	for _, a := range k.alpns {
+		var hit []selChain
+		for _, c := range byTP {
+			if contains(c.alpn, a) {
+				hit = append(hit, c)
+			}
+		}
+		if len(hit) > 0 {
+			return hit
+		}
+	}
+	var out []selChain
+	for _, c := range byTP {
+		if len(c.alpn) == 0 {
+			out = append(out, c)
+		}
+	}
+	return out
+}
+
+// judgeClients: the property per client kind for the chains of one destination port under a mode:
+// STRICT: an Istio mTLS client reaches chains that all terminate mutual TLS, a plaintext client reaches nothing,
+// no chain selected for anybody lacks mutual TLS; PERMISSIVE: mTLS clients are terminated with mutual TLS,
+// plaintext clients reach plaintext chains, foreign TLS is never terminated; DISABLE: plaintext clients reach
+// plaintext chains and nothing terminates TLS.  Returns "" or "<class> <detail>".
+func judgeClients(cs []selChain, mode string) string {
+	for _, k := range clientKinds {
+		sel := selectChains(cs, k)
+		allMTLS, anySock := len(sel) > 0, false
+		for _, c := range sel {
+			if c.sock != "2" || !c.tls {
+				allMTLS = false
+			}
+			if c.sock != "0" {
+				anySock = true
+			}
+		}
+		var labels []string
+		for _, c := range sel {
+			labels = append(labels, c.label)
+		}
+		d := fmt.Sprintf("client %s selects [%s]", k.name, strings.Join(labels, " "))
+		switch {
+		case mode != "DISABLE" && k.mtls && !allMTLS:
+			return "mtls-client-not-terminated-with-mtls:" + k.name + " " + d
+		case mode == "STRICT" && len(sel) > 0 && !allMTLS:
+			return "strict-selects-non-mtls-chain:" + k.name + " " + d
+		case mode != "STRICT" && k.plain && (len(sel) == 0 || anySock):
+			return "plaintext-client-not-admitted:" + k.name + " " + d
+		case mode == "PERMISSIVE" && !k.mtls && !k.plain && anySock:
+			return "foreign-tls-terminated:" + k.name + " " + d
+		case mode == "DISABLE" && anySock:
+			return "disable-terminates-tls:" + k.name + " " + d
+		}
+	}
+	return ""
 }
 
 func chainRows(mode model.MutualTLSMode, proto networking.ListenerProtocol) string {
@@ -73,7 +197,11 @@ func chainRows(mode model.MutualTLSMode, proto networking.ListenerProtocol) stri
 		if o.TLS {
 			tls = 1
 		}
-		rows = append(rows, fmt.Sprintf("[%d, %d, %d, %d, %d]", tp, tls, http, alpnClass(o.ApplicationProtocols), ctx))
+		var q []string
+		for _, a := range o.ApplicationProtocols {
+			q = append(q, strconv.Quote(a))
+		}
+		rows = append(rows, fmt.Sprintf("([%d, %d, %d, %d], [%s])", tp, tls, http, ctx, strings.Join(q, ", ")))
 	}
 	return "[" + strings.Join(rows, ", ") + "]"
 }
@@ -84,11 +212,11 @@ func table(name, outp string) {
 	}
 	var b strings.Builder
 	b.WriteString("/- GENERATED by `harness/c10 table chains` from /repo on every check run. Do not edit.\n")
-	b.WriteString("   Row: (MutualTLSMode as int, ListenerProtocol as int, chains), chain = [transport tls?, terminates TLS?,\n")
-	b.WriteString("   HTTP?, ALPN class (0 none, 1 Istio mTLS ALPNs only, 2 plaintext ALPNs), transport socket (0 none,\n")
+	b.WriteString("   Row: (MutualTLSMode as int, ListenerProtocol as int, chains), chain = ([transport tls?, terminates TLS?,\n")
+	b.WriteString("   HTTP?, transport socket], application_protocols as they are); transport socket (0 none,\n")
 	b.WriteString("   1 TLS without client cert, 2 TLS requiring a client certificate with a validation context,\n   3 requiring one without validation context)]. -/\n")
 	b.WriteString("namespace IstioModel.Generated.C10Chains\n\n")
-	b.WriteString("def impl : List (Nat × Nat × List (List Int)) := [\n")
+	b.WriteString("def impl : List (Nat × Nat × List (List Int × List String)) := [\n")
 	modes := []model.MutualTLSMode{model.MTLSUnknown, model.MTLSDisable, model.MTLSPermissive, model.MTLSStrict}
 	protos := []networking.ListenerProtocol{
 		networking.ListenerProtocolUnknown, networking.ListenerProtocolTCP, networking.ListenerProtocolHTTP, networking.ListenerProtocolAuto,
@@ -145,9 +273,22 @@ func chainsOracle(outp string) {
 					passthroughTLS = true
 				}
 			}
+			var sel []selChain
+			for _, o := range core.VerifFilterChainMatchOptions(m, p) {
+				sel = append(sel, selChain{
+					tls: o.TransportProtocol == xdsfilters.TLSTransportProtocol, alpn: o.ApplicationProtocols,
+					sock: sockClass(o.ToTransportSocket(settings)), http: o.Protocol == networking.ListenerProtocolHTTP,
+					label: fmt.Sprintf("%s.%s.%s", o.TransportProtocol, alpnCode(o.ApplicationProtocols), sockClass(o.ToTransportSocket(settings))),
+				})
+			}
 			verdict := "OK"
 			row := fmt.Sprintf("mode=%s proto=%d", m, int(p))
+			if j := judgeClients(sel, m.String()); j != "" {
+				f := strings.SplitN(j, " ", 2)
+				verdict = "FAIL inbound-enforces " + f[0] + " " + row + " " + strings.ReplaceAll(f[1], " ", "_")
+			}
 			switch {
+			case verdict != "OK":
 			case oneWay:
 				verdict = "FAIL inbound-enforces tls-terminated-without-client-certificate " + row
 			case m == model.MTLSStrict && (plaintext || passthroughTLS || !mtls):
